@@ -180,5 +180,7 @@ def describe_mixed(mc):
             return "%s%s" % (k, tuple(x["bits"]))
         if k in ("scalar", "mscalar"):
             return "%s((%d+%di)/s2^%d)" % (k, x["re"], x["im"], x["s"])
+        if k == "sqrt":
+            return "sqrt(form)"
         return k + ("(%d/8)" % x["ph"] if k in ("Rx", "Ry", "Rz", "CU1", "CRz", "CRx") else "") + ("+" if x["dg"] else "")
     return "%s: %s" % ("".join(mc["ty"]) or "-", " ".join("%s@%d" % (g(l["g"]), l["off"]) for l in mc["layers"]))
